@@ -503,9 +503,17 @@ impl CommandBuilder<'_> {
                 Err(e) => Err(CommandExecutionError::CannotRun(e)),
             },
             ExecAction::Echo => {
+                // With -I the input line only replaces occurrences of the replace
+                // string in the initial arguments; the default command has none,
+                // so nothing is appended (like GNU xargs, which prints an empty line).
+                let printed: &[OsString] = if self.options.replace.is_some() {
+                    &[]
+                } else {
+                    &self.extra_args
+                };
                 println!(
                     "{}",
-                    self.extra_args
+                    printed
                         .iter()
                         .map(|arg| arg.to_string_lossy())
                         .collect::<Vec<_>>()
